@@ -22,3 +22,82 @@ package parsepasses
 //@   ensures[every-child-visited;C01] result == nil && implements(node, ast.ParentNode) && !typeis(node, *ast.GlobalNode) ==> visited == nchildren
 //@   loop 0
 //@     invariant[children-visited-so-far;C01] visited == rangeindex + 1 && visited <= nchildren
+
+// ---------------------------------------------------------------------------
+// C07 (rule level): the individual checks of the data-reference pass decide
+// exactly the membership conditions the rules state, over the checker's
+// current lists of params, let variables, loop variables and used keys. (That
+// those lists follow the block structure of the template is not proved.)
+//@ func contains
+//@   props C07
+//@   nosafety
+//@   noterm
+//@   pure
+//@   ensures[membership;C07] result == exists(i, 0, len(slice), slice[i] == item)
+//@   loop 0
+//@     invariant[not-found-so-far;C07] forall(i, 0, rangeindex + 1, !(slice[i] == item))
+
+//@ func (*templateChecker).checkKey
+//@   props C07
+//@   nosafety
+//@   noterm
+//@   pure
+//@   ensures[bound-by-ij-param-let-or-loop;C07] result == (key == "ij" || exists(i, 0, len(tc.params), tc.params[i] == key) || exists(i, 0, len(tc.letVars), tc.letVars[i] == key) || exists(i, 0, len(tc.forVars), tc.forVars[i] == key))
+//@   loop 0
+//@     invariant[no-param-so-far;C07] !(key == "ij") && forall(i, 0, rangeindex + 1, !(tc.params[i] == key))
+//@   loop 1
+//@     invariant[no-let-so-far;C07] !(key == "ij") && forall(i, 0, len(tc.params), !(tc.params[i] == key)) && forall(i, 0, rangeindex + 1, !(tc.letVars[i] == key))
+//@   loop 2
+//@     invariant[no-loop-var-so-far;C07] !(key == "ij") && forall(i, 0, len(tc.params), !(tc.params[i] == key)) && forall(i, 0, len(tc.letVars), !(tc.letVars[i] == key)) && forall(i, 0, rangeindex + 1, !(tc.forVars[i] == key))
+
+//@ func (*templateChecker).visitKey
+//@   props C07
+//@   nosafety
+//@   noterm
+//@   modifies *
+//@   ghost ok bool = false
+//@   at call (*templateChecker).checkKey#0 after set ok = res
+//@   at call panic#0 assert[only-unbound-keys-are-rejected;C07] !ok
+//@   ensures[returns-only-for-bound-keys;C07] ok
+//@   ensures[records-the-use;C07] len(tc.usedKeys) == old(len(tc.usedKeys)) + 1 && tc.usedKeys[len(tc.usedKeys)-1] == key
+
+//@ func (*templateChecker).checkCall
+//@   props C07
+//@   nosafety
+//@   noterm
+//@   modifies *
+//@   ghost found bool = false
+//@   ghost nDecl int = 0
+//@   ghost allDecl bool = true
+//@   ghost nReq int = 0
+//@   ghost allReq bool = true
+//@   at call (*Registry).Template#0 after set found = res1
+//@   at call parsepasses.contains#1 assert[caller-param-tested-against-callee-params;C07] sameslice(arg0, allCalleeParamNames) && arg1 == callerParamNames[rangeindex+1]
+//@   at call parsepasses.contains#1 after set allDecl = allDecl && res
+//@   at call parsepasses.contains#1 after set nDecl = nDecl + 1
+//@   at call parsepasses.contains#2 assert[required-param-tested-against-passed-params;C07] sameslice(arg0, callerParamNames) && arg1 == requiredCalleeParamNames[rangeindex+1]
+//@   at call parsepasses.contains#2 after set allReq = allReq && res
+//@   at call parsepasses.contains#2 after set nReq = nReq + 1
+//@   ensures[callee-exists;C07] found
+//@   ensures[only-declared-params-passed;C07] allDecl && nDecl == len(callerParamNames)
+//@   ensures[required-params-passed-unless-data;C07] node.Data == nil ==> allReq && nReq == len(requiredCalleeParamNames)
+//@   loop 3
+//@     invariant[declared-so-far;C07] nDecl == rangeindex + 1 && nDecl <= len(callerParamNames) && allDecl == (len(undeclaredCallParamNames) == 0)
+//@   loop 4
+//@     invariant[required-so-far;C07] nReq == rangeindex + 1 && nReq <= len(requiredCalleeParamNames) && allReq == (len(missingRequiredParamNames) == 0) && allDecl && nDecl == len(callerParamNames)
+
+//@ func CheckDataRefs
+//@   props C07
+//@   nosafety
+//@   noterm
+//@   modifies *
+//@   ghost nUsed int = 0
+//@   ghost allUsed bool = true
+//@   at call parsepasses.newTemplateChecker#0 after set nUsed = 0
+//@   at call parsepasses.newTemplateChecker#0 after set allUsed = true
+//@   at call parsepasses.contains#0 assert[declared-param-tested-against-used-keys;C07] sameslice(arg0, tc.usedKeys) && arg1 == tc.params[rangeindex+1]
+//@   at call parsepasses.contains#0 after set allUsed = allUsed && res
+//@   at call parsepasses.contains#0 after set nUsed = nUsed + 1
+//@   at call panic#0 assert[only-unused-params-are-rejected;C07] !allUsed
+//@   loop 1
+//@     invariant[params-checked-so-far;C07] nUsed == rangeindex + 1 && allUsed == (len(unusedParamNames) == 0)
